@@ -55,7 +55,12 @@ using namespace cds_utils;
 #include "utils/LogSequence.h"
 #include "utils/VByte.h"
 
+#if defined(LIBCSD_VERIF) && defined(LIBCSD_VERIF_MEMALLOC)
+// verification hook: a small initial reservation makes every buffer-growth path reachable with small inputs
+#define MEMALLOC LIBCSD_VERIF_MEMALLOC
+#else
 #define MEMALLOC 32768
+#endif
 
 class StringDictionaryPFC : public StringDictionary {
 public:
